@@ -21,7 +21,7 @@ DTS = [0, 0.25, 1, 59.5, 60, 299, 300, 301, 359, 360, 361, 659, 660, 661, 900]
 
 KINDS = ["flow_step", "flow_new", "conn", "claim", "open", "add", "close", "release", "alloc", "list",
          "drop", "reconn", "adv", "restart", "ping", "rawconn", "claim_open",
-         "bad", "resend", "longadv", "faultadv", "fill", "faultadv2", "linger", "reinc", "reopen"]
+         "bad", "resend", "longadv", "faultadv", "fill", "faultadv2", "linger", "reinc", "reopen", "realloc"]
 
 
 class Profile(object):
@@ -72,7 +72,7 @@ PROFILES = {
     "fanout": Profile("fanout", W(linger=3, add=10, open=8, conn=8, claim=2, alloc=0, release=1, restart=3, adv=5), napps=1, nsides=3, nmail=2, nnames=2, forged=True),
     "claims": Profile("claims", W(claim=10, claim_open=2, release=5, close=4, add=1, open=2, restart=2, longadv=2, adv=6, reconn=5), napps=2, nnames=3),
     "crowd": Profile("crowd", W(reinc=3, claim=8, open=7, close=4, release=3, add=4, reconn=4, conn=8, alloc=0, longadv=2, adv=2), napps=1, nsides=4, nnames=1, nmail=1),
-    "holders": Profile("holders", W(claim=9, release=7, list=4, close=3, alloc=3, open=2, add=1, restart=2), napps=1, nsides=2, nnames=3),
+    "holders": Profile("holders", W(realloc=1, claim=9, release=7, list=4, close=3, alloc=3, open=2, add=1, restart=2), napps=1, nsides=2, nnames=3),
     "closers": Profile("closers", W(close=8, open=6, claim=5, claim_open=4, release=3, add=4, reconn=4, resend=3), napps=1, nsides=2, nnames=2, nmail=2),
     "clock": Profile("clock", W(adv=9, add=5, open=5, claim=4, drop=4, reconn=3, restart=1, alloc=1, faultadv2=1), napps=2, nnames=2, nmail=2),
     "hostile": Profile("hostile", W(bad=14, rawconn=2, ping=2, conn=6), napps=2),
@@ -82,7 +82,7 @@ PROFILES = {
     "blurry": Profile("blurry", W(adv=4, longadv=2, close=6, release=5, claim=5, claim_open=3, conn=4), napps=2, nsides=3, nnames=2, nmail=2),
     "restarts": Profile("restarts", W(restart=4, adv=5, longadv=1, reconn=4), napps=2, nsides=3, nnames=2, nmail=2, rephase=True),
     "dups": Profile("dups", W(resend=8, adv=3, restart=1, close=4, release=3), napps=1, nsides=3, nnames=2, nmail=2, dup=True),
-    "alloc": Profile("alloc", W(fill=10, alloc=14, release=8, claim=4, close=3, flow_step=8, flow_new=2, longadv=1, adv=2, conn=6, restart=3), napps=2, nsides=3, nnames=5, nmail=2),
+    "alloc": Profile("alloc", W(realloc=4, fill=10, alloc=14, release=8, claim=4, close=3, flow_step=8, flow_new=2, longadv=1, adv=2, conn=6, restart=3), napps=2, nsides=3, nnames=5, nmail=2),
     "shared": Profile("shared", W(open=8, add=8, close=5, claim=2, flow_step=10, reconn=4, restart=2, adv=2, longadv=1), napps=2, nsides=2, nnames=2, nmail=1, cross_app_mailbox=True),
     "options": Profile("options", W(alloc=6, list=6, release=6, close=5, claim=5, longadv=1, restart=3), napps=2, nsides=3, nnames=3, nmail=2),
     "twoapps": Profile("twoapps", W(close=5, release=4, adv=3, longadv=1, restart=1, faultadv=1, faultadv2=3), napps=2, nsides=2, nnames=2, nmail=2),
@@ -423,6 +423,24 @@ class Driver(object):
             return
         if kind == "fill":
             self.fill(a, b, c, m)
+            return
+        if kind == "realloc":
+            # a nameplate is retired by its last release, (optionally) the server restarts, every other
+            # 1-digit name gets taken: the retired one must be handed out again
+            app = self.app_of(c)
+            c1 = self.new_conn(app, self.side_of(a))
+            st = self.do({"op": "send", "c": c1, "msg": {"type": "allocate"}, "rnd": [b, 0]})
+            cs1 = self.tr.conns.get(c1)
+            if cs1 is None or cs1.alloc_idx is None or not (cs1.alloc_np or "").isdigit() or len(cs1.alloc_np) != 1:
+                return
+            name = cs1.alloc_np
+            self.do({"op": "send", "c": c1, "msg": {"type": "release", "nameplate": {"$np": cs1.alloc_idx}}})
+            if m & 1:
+                self.do({"op": "restart"})
+            others = ["%d" % i for i in range(1, 10) if "%d" % i != name]
+            self.do({"op": "fill", "app": app, "names": others, "side": "filler"})
+            c2 = self.new_conn(app, self.side_of(a + 1))
+            self.do({"op": "send", "c": c2, "msg": {"type": "allocate"}, "rnd": [c, 0]})
             return
         if kind == "reopen":
             # A and B share a mailbox with stored messages; A closes (B keeps it alive); A comes back and
